@@ -47,10 +47,10 @@ def main():
             return res
         shutil.copy(demo, os.path.join(wt, "_demo_test.py"))
         # demo without change
-        rc0, out0 = sh(f"{PY} -m pytest -q -p no:cacheprovider _demo_test.py 2>&1 | tail -3", cwd=wt)
+        rc0, out0 = sh(f"{PY} -m pytest -q -p no:cacheprovider --no-cov --deselect _demo_test.py::test_library_under_test_is_the_worktree _demo_test.py 2>&1 | tail -3", cwd=wt)
         res["demo_without"] = out0.strip().splitlines()[-1] if out0.strip() else ""
         sh(f"git apply {patch}", cwd=wt)
-        rc1, out1 = sh(f"{PY} -m pytest -q -p no:cacheprovider _demo_test.py 2>&1 | tail -3", cwd=wt)
+        rc1, out1 = sh(f"{PY} -m pytest -q -p no:cacheprovider --no-cov --deselect _demo_test.py::test_library_under_test_is_the_worktree _demo_test.py 2>&1 | tail -3", cwd=wt)
         res["demo_with"] = out1.strip().splitlines()[-1] if out1.strip() else ""
         res["demo_ok"] = (" failed" in res["demo_with"] or "error" in res["demo_with"].lower()) and " passed" in res["demo_without"] and " failed" not in res["demo_without"]
         if not skip_suite:
